@@ -168,6 +168,14 @@ def make_db(json1):
     return db
 
 
+class Refused(Exception):
+    pass
+
+
+class Failed(Exception):
+    pass
+
+
 class Runner(object):
     """Runs one query text over a table; when the database refuses the whole statement, over groups of rows and
     then over single rows, so that an error caused by some documents does not hide the answers for the others."""
@@ -187,34 +195,42 @@ class Runner(object):
             return '%s for x in %s%s' % (head, self.var, (' if ' + ' and '.join(conds)) if conds else '')
 
         def attempt(extra, more):
+            """Translation first (pony may refuse: Refused), then execution (any exception is an execution failure)."""
             self.executed += 1
             with db_session:
-                return select(text(extra), dict(self.ns), dict(params, **more))[:]
-        out = {}
+                try:
+                    q = select(text(extra), dict(self.ns), dict(params, **more))
+                    q.get_sql()
+                except REFUSALS:
+                    raise Refused()
+                try:
+                    return q[:]
+                except Exception as e:
+                    core.rollback()
+                    raise Failed('%s: %s' % (type(e).__name__, str(e)[:80]))
         try:
-            rows = attempt(None, {})
-            return {'rows': rows, 'errors': {}}
-        except REFUSALS:
+            return {'rows': attempt(None, {}), 'errors': {}}
+        except Refused:
             self.refused += 1
             return None
-        except DB_ERRORS as e:
-            whole = type(e).__name__
+        except Failed:
+            pass
         errors = {}
         rows = []
         for group in groups:
             try:
                 rows += attempt('x.id in ids_', {'ids_': list(group)})
                 continue
-            except REFUSALS:
+            except Refused:
                 self.refused += 1
                 return None
-            except DB_ERRORS:
+            except Failed:
                 pass
             for rid in group:
                 try:
                     rows += attempt('x.id == rid_', {'rid_': rid})
-                except DB_ERRORS as e:
-                    errors[rid] = type(e).__name__ + ': ' + str(e)[:80]
+                except Failed as e:
+                    errors[rid] = str(e)
         return {'rows': rows, 'errors': errors}
 
 
@@ -252,7 +268,7 @@ class JsonChecker(object):
         g = {}
         for di in range(len(self.docs)):
             p = self.t['json'][ki][di]['path']
-            g.setdefault(p.get('why', 'defined'), []).append(di + 1)
+            g.setdefault((p.get('why', 'defined'), type(self.docs[di])), []).append(di + 1)
         return list(g.values())
 
     def has_quote(self, keys):
@@ -262,13 +278,15 @@ class JsonChecker(object):
         self.ctx.mismatch(sig, '[%s] %s' % (self.mode, what),
                           {'what': 'json', 'mode': self.mode, 'kind': kind, 'src': src, 'params': params, 'doc': self.t['docs'][di]})
 
-    def error_signature(self, keys, a):
+    def error_signature(self, keys, a, di):
         why = a['path'].get('why')
         if self.mode == 'json1' and any(isinstance(k, int) and k < 0 for k in keys):
-            return 'C29:json1:negative-index-in-path:database-error'
-        if self.mode == 'fallback' and why == 'key-on-list':
-            return 'C29:fallback:string-key-applied-to-list:database-error'
-        return 'C29:%s:database-error:%s' % (self.mode, why or jtype(a))
+            return 'C29:json1:negative-index-in-path:query-fails'
+        if why == 'key-on-list' or (self.mode == 'fallback' and isinstance(self.docs[di], list)):
+            # sqlite._traverse applies a string key (of the path, or the '$.__non_existent_json_attr_name__' that JSON_QUERY
+            # puts in front) to a list
+            return 'C29:sqlite:string-key-applied-to-list:query-fails'
+        return 'C29:%s:query-fails:%s' % (self.mode, why or jtype(a))
 
     def select_value(self, kind, ki, keys, head_expr, params, expected_of, sig_of):
         """Queries of the form (x.id, <expr>)."""
@@ -285,7 +303,7 @@ class JsonChecker(object):
             exp = expected_of(a)
             if rid in res['errors']:
                 self.c['cells'] += 1
-                self.mismatch(self.error_signature(keys, a), '%s for x in J fails with %s on the document %r' % (
+                self.mismatch(self.error_signature(keys, a, di), '%s for x in J fails with %s on the document %r' % (
                     src, res['errors'][rid], self.docs[di]), kind, src, params, di)
                 continue
             if exp is None:
@@ -312,7 +330,7 @@ class JsonChecker(object):
             rid = di + 1
             if rid in res['errors']:
                 self.c['cells'] += 1
-                self.mismatch(self.error_signature(keys, a), '%s fails with %s on the document %r' % (
+                self.mismatch(self.error_signature(keys, a, di), '%s fails with %s on the document %r' % (
                     src, res['errors'][rid], self.docs[di]), kind, src, params, di)
                 continue
             exp = answer_of(a)
@@ -459,7 +477,7 @@ class ArrayChecker(object):
                     self.c['cells'] += 1
                     rep = {'what': 'array', 'which': self.which, 'mode': self.mode, 'head': head, 'cond': cond, 'params': params, 'arr': arr}
                     if rid in res['errors']:
-                        self.ctx.mismatch('C29:array:%s:database-error' % q['q'], '[%s] %s fails with %s on %r' % (
+                        self.ctx.mismatch('C29:array:%s:query-fails' % q['q'], '[%s] %s fails with %s on %r' % (
                             self.mode, src, res['errors'][rid], arr), rep)
                         continue
                     if cond is not None:
